@@ -391,8 +391,8 @@ pub struct ModelOutcome {
     pub end: End,
 }
 
-pub const MODEL_FUEL: u64 = 2_000_000;
-const MAX_DEPTH: u32 = 5_000;
+pub const MODEL_FUEL: u64 = 4_000_000;
+const MAX_DEPTH: u32 = 80_000;
 
 impl<'a> Interp<'a> {
     pub fn new() -> Self {
@@ -955,8 +955,9 @@ impl<'a> Interp<'a> {
                     if f.is_nan() || f.is_infinite() {
                         return Err(Stop::Unspec("U11"));
                     }
-                    let t = f.trunc();
-                    if t < INT_MIN as f64 || t > INT_MAX as f64 {
+                    // compare as integers: INT_MAX itself is not representable as f64
+                    let t = f.trunc() as i128;
+                    if t < INT_MIN as i128 || t > INT_MAX as i128 {
                         return Err(Stop::Err(MErr::Any));
                     }
                     Ok(V::Int(t as i64))
